@@ -13,7 +13,8 @@ CLAIMED = {
             "Decides the property for all integer charges: each shipped fuse() is shown (by abstract interpretation of "
             "its AST) to be R_m(sigma * sum s_j c_j) with m parsed from SYM_ID; a paper meta-theorem then gives the "
             "group axioms, canonical range and grouping law. Leg validation guards are located in the CFG, normalised "
-            "and must dominate the stores; sorted storage, conj and the _verified bypass are checked structurally.",
+            "(unrecognised shapes are evaluated on witness values) and must dominate the stores; a fuse component computed from the raw "
+            "charges instead of the signed sum is a violation; sorted storage, conj and the _verified bypass are checked structurally.",
             "trusted: the meta-theorem (docstring of sa/props/c19.py), numpy floored mod, python's ast parser; "
             "user-defined symmetries are out of scope",
             "DESIGN.md §4 C19"),
@@ -34,8 +35,9 @@ CLAIMED = {
             "Decides transparency of all 20 lru_cache'd metadata functions: each is shown closed and pure together with its "
             "transitive repository callees (so the key built from all arguments covers every input, including the symmetry "
             "where the group law is used), every call site passes hashable-by-value arguments, no consumer anywhere writes "
-            "into (a part of) a value handed out by a cache, no cached value is a one-shot iterator, and the "
-            "resize/clear/info tables pair each function with itself and are complete.",
+            "into (a part of) a value handed out by a cache, no cached value is a one-shot iterator, the "
+            "resize/clear/info tables pair each function with itself and are complete, key-component types define no equality of "
+            "their own, and local memos key on all loop-variant inputs.",
             "trusted: functools.lru_cache semantics, value-purity of whitelisted numpy/itertools calls, NamedTuple eq/hash; "
             "unknown external calls inside memoised bodies are listed, not alarmed",
             "DESIGN.md §4 C16"),
@@ -45,7 +47,8 @@ CLAIMED = {
             "field is written (or neutralised/named volatile), every key a reader needs is written and every written key is "
             "consumed, geometry constructors get all their parameters back, level>=1 conversions pair with their inverses, "
             "the type/symmetry/backend registries are total, mismatch and meta-conformance guards cover all state fields, and "
-            "normalised copies are the ones serialised. These are necessary conditions of the round trip; that values survive "
+            "normalised copies are the ones serialised, and the reader keeps the dtype of stored data for every dtype of the backend table. "
+            "These are necessary conditions of the round trip; that values survive "
             "numpy/HDF5 I/O bit-for-bit is NOT decided.",
             "trusted: python ast; numpy/h5py store values faithfully; legacy (deprecated) formats checked for key agreement "
             "only; one known finding (MpoPBC.tol) listed in known_findings.json",
@@ -55,7 +58,8 @@ CLAIMED = {
             "Partial: decides the structural necessary conditions of a consistent lattice indexing for all sizes at once — the "
             "direction table is antisymmetric/compositional, nn_bond_dirn pairs each direction with its opposite and label, "
             "nn_site applies one boundary rule per axis, bonds are generated in lattice order, every site2index reduces each "
-            "coordinate modulo the period of its own axis, Lattice get/set/patch/init use the same key expression, and the "
+            "coordinate modulo the period of its own axis, Lattice get/set/patch/init use the same key expression on every path, the "
+            "lattice-order direction of each axis is tested first, and the "
             "rejection guards dominate construction. The enumerated value-level invariants (each site once, total order) are "
             "NOT decided.",
             "trusted: python ast; the boundary-letter table _periodic_dict is evaluated as a literal; some sub-rules compare normalised "
@@ -67,7 +71,8 @@ CLAIMED = {
             "the spectrum (block stage: of the very block written; global stage: of the already masked spectrum), that the "
             "keep-count is min(user limit, number strictly above relative tolerance), that K==0 cannot reach the empty slice "
             "[:-0], that the spectrum is copied first, that the wrappers apply one mask to all factors, and that each scalar-or-dict "
-            "dispatch of a user limit tests the limit whose value it selects. The Eckart-Young "
+            "dispatch of a user limit tests the limit whose value it selects, that no store selects by position instead of by size, that "
+            "the ordering key per `which` is right, that masks hit the leg they were computed for. The Eckart-Young "
             "optimality/error identity itself is numerical and NOT decided.",
             "trusted: argsort is ascending; python ast",
             "DESIGN.md §4 C13"),
@@ -79,7 +84,9 @@ CLAIMED = {
             "class's clear_site_; that the reported energy is env.measure() after the sweep of the same iteration on "
             "<psi|H|psi>; that DMRG normalises, ends at the first site and canonises its input; that every effective operator is "
             "linear in its input and sesquilinear in (bra, ket) (91 typed contraction operands), that projection penalties are "
-            "p|X><X|, and that eigs returns combinations of its orthonormal basis started from v0/|v0|. The variational bound, "
+            "p|X><X|, that eigs returns combinations of its orthonormal basis started from v0/|v0|, that the sweep loop stops early only "
+            "when all requested tolerances are met, and that no parameter / unpacked component (e.g. a projection penalty) is ignored. "
+            "The variational bound, "
             "monotonicity and convergence to an eigenstate are numerical and NOT decided.",
             "trusted: CFG builder, exact polynomial arithmetic; only explicit raise is exceptional flow",
             "DESIGN.md §4 C09/C10"),
@@ -90,7 +97,8 @@ CLAIMED = {
             "the 4th-order constant equals 1/(4-4^(1/3)) to 1e-15), that steps*ds = t1-t0 with exactly `steps` iterations and the "
             "reported time is the loop-carried one, that bad dt/times raise, that the Krylov memo is per site, and the sweep "
             "ordering rules of C09 for the three TDVP sweeps, that expmv returns a combination of its orthonormal Krylov basis started "
-            "from v/|v|, that all Heff are linear in their input and all Heff0/1/2 siblings carry the operator's norm factor. Conservation laws and agreement with expm are numerical and NOT decided.",
+            "from v/|v|, that all Heff are linear in their input and all Heff0/1/2 siblings carry the operator's norm factor, that no "
+            "parameter (e.g. normalize) is dropped on the way to the solver. Conservation laws and agreement with expm are numerical and NOT decided.",
             "trusted: exact rational arithmetic with float literals taken exactly; CFG builder",
             "DESIGN.md §4 C09/C10"),
     "C05": ("fermisign",
@@ -101,7 +109,7 @@ CLAIMED = {
             "(only data replaced; negated slices a pure function of structure; negate_blocks = -x on a copy), and that fkron "
             "strings carry strictly later charges, and that every jump move of the ncon/einsum swap resolver emits its parity "
             "correction on every path, toggles the other legs, is followed by the collection of same-tensor swaps, with every "
-            "emitted command kind executed. Completeness/termination of the swap resolution (order independence) and the CAR of "
+            "emitted command kind executed and the parity correction skipped only for a charge that vanishes in every component. Completeness/termination of the swap resolution (order independence) and the CAR of "
             "fkron are value-level and NOT decided.",
             "trusted: python ast; C16-K1 for purity of _meta_swap_gate*",
             "DESIGN.md §4 C05"),
@@ -113,7 +121,8 @@ CLAIMED = {
             "scalar multiplication; that zipper, analysed separately for normalize=True/False on a CFG specialised on that knob, "
             "multiplies the MPO's factor in on every path and never overwrites the factor; that sector charges read from a leg enter "
             "charge arithmetic with that leg's signature; that overlap recursions are sesquilinear (bra tensors conjugated, ket/operator "
-            "not; 56 typed contraction operands). That sums/products/overlaps equal the dense objects is value-level and NOT decided.",
+            "not; 56 typed contraction operands); that site-ordered sequences are zipped in one sweep direction; that freshly built results take "
+            "the operand's factor on every path. That sums/products/overlaps equal the dense objects is value-level and NOT decided.",
             "trusted: python ast, exact rational arithmetic; taint is flow-insensitive inside a function",
             "DESIGN.md §4 C06/C08"),
     "C08": ("factorflow",
@@ -123,7 +132,8 @@ CLAIMED = {
             "mps_from_tensor; that discarded weights compose as a+x-ax with x a squared local weight and are square-rooted in "
             "truncate_ and both zippers; that the local weight uses the complement of the truncating mask and the untruncated "
             "norm of a complete (not partial-policy) decomposition; that norm()/get_Schmidt_values() work on shallow copies and that "
-            "shallow_copy carries every mutable state field (A, pC, factor). Isometry of site tensors and equality of Schmidt "
+            "shallow_copy carries every mutable state field (A, pC, factor), with every returned value computed after the canonisation of "
+            "the copy. Isometry of site tensors and equality of Schmidt "
             "values with the dense state are NOT decided.",
             "trusted: python ast, exact rational arithmetic; one named exception (2-site compression sweep re-derives the factor "
             "from the overlap, checked separately)",
@@ -137,7 +147,8 @@ CLAIMED = {
             "accounted for, that s/hfs/mfs of results come from the same leg sequences, that negative axes are normalised first, "
             "that binary kernels promote dtypes and update output-buffer views in place, that sequences paired position by position "
             "are enumerated in the same leg order (engine seqorder), that fusion metadata of factors comes from the leg group it "
-            "belongs to. These are necessary conditions of "
+            "belongs to, that parallel sequences (sectors of a leg) are zipped in the same direction (engine seqrev), that no parameter or "
+            "unpacked component is ignored. These are necessary conditions of "
             "'commutes with to_numpy'; block-pairing arithmetic and numerical content are NOT decided.",
             "trusted: seed table of index spaces for API/helper parameters (sa/props/e3.py); untyped literal indices not judged",
             "DESIGN.md §4 C01/C14"),
@@ -146,7 +157,9 @@ CLAIMED = {
             "Partial: decides that every expression setting a total charge evaluates, as a formal signed sum, to what the algebra "
             "dictates (24 table rows incl. guards), that the selection rule dominates block creation and loaders validate, that "
             "s/hfs/mfs of results are coherent (E3), that every width-nsym slice of a flat block-charge tuple starts at a multiple of "
-            "nsym (34 sites) and that only constructor/in-place API write tensor state. Mutual consistency "
+            "nsym (34 sites), that guards on operand charges fire exactly for unfit charges (decided by evaluating the guard on witness "
+            "charges), that add_leg takes its default charge only for t=None and rand_like forwards the template's charge, that no "
+            "parameter is ignored, and that only constructor/in-place API write tensor state. Mutual consistency "
             "of t, D, slices, size produced by the _meta_* functions (and hence zeros outside allowed sectors) is value-level and "
             "NOT decided.",
             "trusted: C19 (group law linear mod m); table of charge rows in sa/props/e6.py",
@@ -156,7 +169,7 @@ CLAIMED = {
             "Partial: decides that tensordot/vdot/trace/addition pass the fusion-compatibility and configuration tests on every "
             "computing path, that unsupported fused legs are rejected, that the verdict mask_needed guards masking/embedding and "
             "replacement of histories (a verdict obtained pair by pair in a loop must be accumulated), that masks are applied with native indices on materialised tensors, that N-ary addition "
-            "treats all operands alike. Correctness of the tree-parsing mask construction is value-level and NOT decided.",
+            "treats all operands alike, that local memos key on every loop-variant input of what they store. Correctness of the tree-parsing mask construction is value-level and NOT decided.",
             "trusted: python ast, CFG builder",
             "DESIGN.md §4 C03"),
     "C04": ("chargeflow",
@@ -164,7 +177,8 @@ CLAIMED = {
             "Partial: decides that the charge is carried by the selected factor, that the connecting leg has signature E / -E in "
             "struct and fusion record of the two factors with charges from one variable, that Uaxis/Vaxis/Qaxis/Raxis move (or are "
             "forwarded for) the factor of the same letter, that masks act on the connecting leg where it is, that sU/nU reach the "
-            "meta function, that s/hfs/mfs of factors are coherent. Reconstruction, isometry, ordering, triangularity are "
+            "meta function, that s/hfs/mfs of factors are coherent, that the ordering key per `which` (LM/SM/LR/SR) is |S|, -|S|, S, -S in "
+            "eigh_with_truncation and in the backend's eigs_which, that no parameter is ignored. Reconstruction, isometry, ordering, triangularity are "
             "LAPACK/value-level and NOT decided.",
             "trusted: python ast; several sub-rules compare normalised text of short constructor calls",
             "DESIGN.md §4 C04"),
@@ -186,7 +200,7 @@ CLAIMED = {
             "handled first; that every returned vector is a Tensor.add combination of the orthonormal basis (and the initial guess), "
             "and Tensor.add rejects other charges, hence results stay in the symmetry sector of the start vector; that expmv multiplies "
             "the accumulated norm back on every path iff normalize is False; that lin_solver reports |f(x) - b| recomputed from the "
-            "returned x. Accuracy to tolerance, the adaptive controller of expmv and the variational property of Ritz values are "
+            "returned x; that the Krylov loop runs up to the caller's ncv unmodified; that no parameter is ignored (named exceptions). Accuracy to tolerance, the adaptive controller of expmv and the variational property of Ritz values are "
             "numerical and NOT decided.",
             "trusted: python ast, CFG builder; the structural rules name the solver's local variables (a rename is reported as a vanished "
             "anchor, exit 2, not as a violation)",
